@@ -23,6 +23,7 @@ RULE = (
     ' Also: the same path listed twice, tile-compressed image HDUs, data cubes in three axis orders, a selection one past the end of th'
     'e shortest file (an error is demanded), the collection re-used after being analysed for tiling.'
     " Round 8: entries counted from the end of a file; one selection list object used for two collections of different file lengths; the caller's list must stay unchanged."
+    ' Round 9: a table-only FITS file in the middle of a collection with one WCS key per file and no HDU selection (reported, or every image file keeps its own key).'
 )
 ASSUMPTIONS = ["marker values and CRPIX encodings make the loaded HDU / WCS solution unambiguous"]
 KEYS = [" ", "A", "B"]
@@ -166,6 +167,35 @@ def run_case(spec, workdir):
         k = R.randrange(len(paths))
         paths.insert(R.randrange(len(paths) + 1), paths[k])
         layout = [dict(layout[int(os.path.basename(p)[1:-5])], file=int(os.path.basename(p)[1:-5])) for p in paths]
+    if spec["entry"] in ("load", "simple") and spec["hsel"] == "none" and spec["ksel"] == "list" and len(paths) >= 2 and spec["seed"] % 2 == 0:
+        # a file WITHOUT any image HDU (a source catalogue swept up by *.fits) in the middle of the collection, no HDU selected and
+        # one WCS key per file: the collection says so (as the unchanged library does), or - if it chooses to carry on - every
+        # image file still gets the key at ITS list position
+        from astropy.io import fits as _fits
+        from astropy.table import Table as _Table
+
+        tp = os.path.join(d, "catalogue.fits")
+        _fits.HDUList([_fits.PrimaryHDU(), _fits.table_to_hdu(_Table({"a": [1, 2, 3]}))]).writeto(tp)
+        ins = 1
+        keyidx = [R.randrange(3) for _ in range(len(paths) + 1)]
+        plist = paths[:ins] + [tp] + paths[ins:]
+        res = dict(counters=dict(collections=1, collections_with_a_table_only_file=1), nontrivial=True, sample=dict(spec=spec))
+        try:
+            wk = [KEYS[k] for k in keyidx]
+            coll = collection.SimpleFitsCollection(plist, wcs_key=wk) if spec["entry"] == "simple" else collection.load(plist, wcs_key=wk)
+            descs = list(coll.descriptions())
+        except Exception:
+            res["counters"]["table_only_file_reported"] = 1
+            return res
+        bad = []
+        for dsc in descs:
+            f_, h_, k_ = identify(dsc, False)[:3]
+            pos_in_list = plist.index(getattr(dsc, "collection_id", None)) if getattr(dsc, "collection_id", None) in plist else None
+            if pos_in_list is None or k_ != keyidx[pos_in_list]:
+                bad.append("file %d (list position %s) was read with WCS key %r, its list position says %r" % (f_, pos_in_list, KEYS[k_] if k_ < 3 else k_, KEYS[keyidx[pos_in_list]] if pos_in_list is not None else None))
+        if bad:
+            res.update(status="violation", key="wrong-hdu-or-wcs:table-only-file", detail="; ".join(bad[:4]))
+        return res
     nf = len(paths)
     fidx = [int(os.path.basename(p)[1:-5]) for p in paths]
     if spec["hsel"] == "beyond":
